@@ -307,10 +307,32 @@ static void DecodeFixed(Word Index) {
 static void DecodeOneReg(Word Index) {
     FixedOrder* Instr = OneRegOrders + Index;
     Word        RegX;
+    int         FixedArg = 0, RegArg = 1;
 
     if (*AttrPart.str.p_str) {
         WrError(ErrNum_UseLessAttr);
-    } else if (ChkArgCnt(1, 1) && DecodeArgReg(1, &RegX, AllRegMask)) {
+        return;
+    }
+
+    /* Motorola writes the implicit register R1 of DIVS/DIVU rx,r1 and
+       XTRBn r1,rx explicitly; accept this spelling beside the short one: */
+
+    if (ArgCnt == 2) {
+        Word Fixed;
+
+        if ((Instr->Code == 0x3210) || (Instr->Code == 0x2c10)) {
+            FixedArg = 2;
+            RegArg   = 1;
+        } else if ((Instr->Code & 0xffcf) == 0x0100) {
+            FixedArg = 1;
+            RegArg   = 2;
+        }
+        if (FixedArg && !DecodeArgReg(FixedArg, &Fixed, 0x0002)) {
+            return;
+        }
+    }
+
+    if ((FixedArg || ChkArgCnt(1, 1)) && DecodeArgReg(RegArg, &RegX, AllRegMask)) {
         if ((Instr->Priv) && (!SupAllowed)) {
             WrError(ErrNum_PrivOrder);
         }
